@@ -50,10 +50,14 @@ def _work(args):
     ref = perm.plain_run(src)
     res = []
     for mask, mode, api in tasks:
-      code = row[255] if mode == 'outer_all' else row[mask]
+      if mode.startswith('arg_in_scope:'):
+        # the permission in force = scope combined with the argument, as exported by TLC (CombineTab)
+        code = row[_DATA['combine'][mask][int(mode.split(':')[1])]]
+      else:
+        code = row[255] if mode == 'outer_all' else row[mask]
       got = perm.pg_run(src, mask, mode, api)
       d = perm.compare(ref, got, code)
-      if d is None and mode != 'param':
+      if d is None and mode != 'param' and not mode.startswith('arg_in_scope:'):
         want_eff = 255 if mode == 'outer_all' else mask
         if got.get('effective') != want_eff:
           d = ('narrowing', 'effective permission inside nested scopes', want_eff, got.get('effective'))
@@ -91,6 +95,14 @@ def _tasks(chain, row, all_masks: bool):
   for m in sorted(scoped):
     for mode in ('scope', 'nested_all', 'nested_none', 'outer_all'):
       tasks.append((m, mode, 'evaluate'))
+  # an explicit permission argument Q inside an open scope P: Q = ALL, nothing, P itself, a proper subset
+  # of P, a set that is not a subset of P
+  for pm in sorted({mustmay, 255} | ({255 ^ needed[0]} if needed else set())):
+    sub = pm & ~_bits(pm)[0] if pm else 0
+    qs = {255, 0, pm, sub, (255 ^ pm) | must}
+    for q in sorted(qs):
+      tasks.append((pm, f'arg_in_scope:{q}', 'evaluate'))
+    tasks.append((pm, f'arg_in_scope:{(255 ^ pm) | must}', 'run'))
   tasks.append((255, 'param', 'run'))
   if needed:
     tasks.append((255 ^ needed[-1], 'param', 'run'))
@@ -123,9 +135,13 @@ def _work_hist(args):
 
 def _signature(kinds_tab, chain, mask, mode, d, src=None):
   clause, what = d[0], d[1]
-  sig = {'clause': clause, 'mode': 'param' if mode == 'param' else 'scoped'}
+  sig = {'clause': clause, 'mode': 'param' if mode == 'param' else 'arg_in_scope' if mode.startswith('arg_in_scope') else 'scoped'}
   if clause == 'containment':
     eff = mask
+    if mode.startswith('arg_in_scope:'):
+      q = int(mode.split(':')[1])
+      eff = _DATA['combine'][mask][q]
+      sig['argument_wider_than_scope'] = bool(q & ~mask)
     missing = sorted({k for k in _kinds_of(chain)
                       if kinds_tab[k]['must'] != 'none' and not (eff & _FLAG_BIT[kinds_tab[k]['must']])})
     sig['kind'] = '+'.join(missing)
@@ -178,6 +194,7 @@ def run(chk):
 
   # 2. machinery: my tables against the interpreter and the spec
   kinds_tab = {k['kind']: k for k in data['kinds']}
+  _DATA['combine'] = data['combine']
   names, problems = perm.interpreter_kinds()
   chk.require(not problems, f'ast module has unknown base classes: {problems}')
   chk.require(names <= set(kinds_tab), f'node classes of this interpreter missing in Perm.tla: {sorted(names - set(kinds_tab))}')
